@@ -143,7 +143,8 @@ def run(ctx, replay_ops=None):
     ctx.overlay()
     ctx.assumptions += [
         "asm_dis_asm is proved for token-level sources without the pseudo-ops int/byte/addr/method (hence without mixing pseudo-op constants with an explicit intc/bytec N>=4, the recorded known finding) and under the constant-definedness rule 'any block seen' observed by the facts test (TokFacts.rule: the proof breaks if the tree reverts fix d0bedba4d8); list immediates have fewer than 2^64 items (SmallProg)",
-        "encode_decode_canonical is partial: it assumes the back end accepts the decoded program (EncodeTotalOnCheckedStatement is stated, not proved); 'assembled programs pass the static check' (AssembledChecksStatement) is stated, not proved: both are checked on the real code and against the model on every run",
+        "assembled_checks is proved about the model's staticCheck, which mirrors eval.go check/checkStep and is tied to the real CheckSignature/CheckContract by the correspondence of every run (every code line), not by proof; run mode must allow all opcodes of the program, protocol version >= program version",
+        "encode_total_canonical assumes the version rules of resolveLabels for the decoded program; that the static check implies them is stated (CheckedObeysRulesStatement), not proved",
         "text is compared at TOKEN level: lexing (comments, string/base64/base32 literals, octal/binary numerals), #pragma lines, macros, the pseudo-ops int/byte/addr/method with the constant-block optimiser, the type tracker and the off-curve salt are exercised by the implementation-only monitor (src lines) but not modelled or proved",
         "the model's tables are buildTables(OpSpecs) and the asm function names dumped from the current tree (tie F); a row with an asm function the model does not know makes the driver answer SKIP for lines using it",
         "decode treats a branch target that is not an instruction start as an error; the real Disassemble prints a label it never defines (such programs fail the real static check, and the harness compares disassemblies only for programs that pass it)",
